@@ -17,7 +17,11 @@ RULE = ('batches of int64 values / integer texts / integer lists / float texts /
         'sub-batch is converted separately (row independence); float texts with 1..17 significant digits, '
         'optional sign, fraction, exponent -300..300; buffers with integer fields at any offset (a short field at offset 0 '
         'before a 19-digit field) through move_intervals_to_digit_array and as the first column of a file; every output of '
-        'a row must be identical across all sub-batches it was converted in. non-trivial = a row of width >= 2, a signed row, a batch '
+        'a row must be identical across all sub-batches it was converted in; the direct parsing runs of a case all use ONE '
+        'array object (for canonical integer texts the output object of ints_to_strings): it is parsed whole more than once, '
+        'sub-batches/permutations are taken from it, and its text is read back after all runs (inputs unchanged); batches '
+        'mixing valid texts with malformed ones (no digits, sign only, two points, exponent without digits, letters): must '
+        'raise the parse error at the first malformed row, sub-batches without one convert as usual. non-trivial = a row of width >= 2, a signed row, a batch '
         'with rows of different width, or a float text with a fraction or an exponent')
 EXHAUSTIVE = {'quick': False, 'thorough': False}
 TIE = ('translator+correspondence: translate/gen_c18.py regenerates 22 arithmetic kernels of strops.py / file_buffers.py into Gen/C18.v, '
@@ -39,7 +43,11 @@ ASSUMPTIONS = ['int64 arithmetic of NumPy is arithmetic modulo 2^64 (wrap64 in t
                'to denote the double to within half an ulp',
                'the pinned variant of the integer formatter (kept for the refutation theorems only) assumes a correctly rounded '
                'log10 (table log10_carry)']
-PARTIAL = ['floats: proved are the exact decomposition (C18_float_rational_partial, C18_float_decomposition_exact), that the '
+PARTIAL = ['malformed texts: the outcome (values / EncodingError at a row / other exception) is modelled for the code as it '
+           'is and for notes/C18.fix-3.diff and compared per run; proved: valid integer batches never raise, and for the repaired '
+           'variant the error is reported at the first malformed row (C18_parse_errors_fixed); the float side of the error '
+           'model is tested only; empty texts are not generated (an offset cannot identify an empty row)',
+           'floats: proved are the exact decomposition (C18_float_rational_partial, C18_float_decomposition_exact), that the '
            'double of a row depends on that row and P only (C18_float_double_rowwise), exactness of the integer mantissa step '
            'for digit strings < 2^53 (C18_float_mantissa_exact_partial) and the single-division form of short decimals '
            '(C18_float_short_decimal_partial); NOT proved: an ulp bound for the double evaluation in general, that the modelled '
